@@ -210,7 +210,8 @@ Print Assumptions C05_protocol_example.
 
 (* (9) LATE SUBSCRIBERS and the network (Proofs/ProtocolLate.v, Proofs/ProtocolJoin.v): the system of (8) with every answer
    ever given deliverable late, out of order and repeatedly ([LLate]), and with clients that join at any time by
-   Subscribe(key) ([JJoin v Dv]: the server's subscribe path and the subscribe branch of ApplyPushPullPack — the joiner
+   Subscribe(key) or SubscribeOrCreate(key) of an existing key ([JJoin v Dv orc], orc = the snapshot operation a
+   subscribe-or-create request carries and the server ignores: the server's subscribe path and the subscribe branch of ApplyPushPullPack — the joiner
    is answered with the whole log and executes all of it).  [JInv] = the invariant of (8) for the base system, the
    description of every answer in the network, and the datatype keeping its key and type. *)
 From Orda.Proofs Require Import ProtocolLate ProtocolJoin.
@@ -232,7 +233,7 @@ Example C05_late_subscriber_example :
   let rs := [RCollection col; RClient col u; RClient col w;
              RPushPull col u [mkPpp k c bit_create (mkCp 0 1) 0 [o1] None]] in
   let st0 := mkLs (mkPs (fold_left serve rs sdb_init) [mkPc u 1 1 [] []]) [] in
-  let evs := [JBase (LBase (PLocal 0 o2)); JBase (LBase (PSync 0 false)); JJoin w [100]%N; JBase (LBase (PLocal 1 q1));
+  let evs := [JBase (LBase (PLocal 0 o2)); JBase (LBase (PSync 0 false)); JJoin w [100]%N (Some (OSnap (mkOpid 0 1 w 1))); JBase (LBase (PLocal 1 q1));
               JBase (LBase (PSync 1 false)); JBase (LLate 0 0); JBase (LBase (PSync 0 false)); JBase (LLate 1 0)] in
   JInv 1 c k 0 st0 /\
   map (fun x => (pc_cuid x, pc_s x, pc_cc x, pc_buf x, pc_exec x)) (ps_cl (l_base (jrun col 1 c k 0 st0 evs)))
@@ -331,3 +332,44 @@ Theorem C05_wired_local_call_is_abstract_local_step : forall (St call ret J : Ty
     pending St call J d' = pending St call J d ++ [o] /\ IdInv St call J d'.
 Proof. exact local_call_refines. Qed.
 Print Assumptions C05_wired_local_call_is_abstract_local_step.
+
+(* ... and the answer to Subscribe / SubscribeOrCreate makes the wired client the joiner of (9): state = the kernel's remote
+   execution, from the initial state, of exactly the operations [incoming] selects (all of them, (9)); empty buffer;
+   checkpoint as the abstract joiner's; the server's DUID adopted *)
+Theorem C05_wired_subscribe_answer_is_abstract_join : forall (St call J : Type) (k_init : St) (k_remote : St -> op -> St)
+    (k_export : St -> J) (w : wdt St call J) (r : ppp) (ops : list op),
+  w_state w = DueToSubscribe \/ w_state w = DueToSubscribeCreate ->
+  has (p_opt r) bit_error = false -> has (p_opt r) bit_subscribe = true ->
+  (match p_ops r with o :: _ => is_snap o | [] => false end) = true ->
+  let c0 := mkCp (u64sub (sseq (p_cp r)) (N.of_nat (length (p_ops r)))) (cseq (p_cp r)) in
+  incoming (o_cuid (d_oid (w_d w))) true c0 r = Some ops -> no_tx ops ->
+  exists (w' : wdt St call J) (a : Wire.applied),
+    apply_pack St call J k_init k_remote k_export w r = AOk St call J w' a /\
+    w_state w' = SubscribedSt /\ w_duid w' = p_duid r /\ w_key w' = w_key w /\
+    d_snap (w_d w') = fold_left k_remote ops k_init /\ d_buf (w_d w') = [] /\
+    absc St call J w' ops =
+      mkPc (o_cuid (d_oid (w_d w))) (N.max (sseq c0) (sseq (p_cp r))) (N.max (cseq c0) (cseq (p_cp r))) [] ops.
+Proof. exact apply_subscribe_refines. Qed.
+Print Assumptions C05_wired_subscribe_answer_is_abstract_join.
+
+(* (12) AMONG OTHER DATATYPES (Proofs/ProtocolOther.v; isolation, C17): (11) with the events of D's system interleaved in
+   any way with packs of any clients for other datatypes of this and of other collections ([OOther]; [polite]: such a pack
+   carries its sender's operations and names neither D's identifier nor D's (collection, key)), commands failing anywhere *)
+From Orda.Proofs Require Import ProtocolOther.
+Theorem C05_datatype_life_among_others : forall colname col D key ty rs u o1 es,
+  Forall honest rs ->
+  let db := fold_left serve rs sdb_init in
+  find_dt db D = None -> find_dt_by_key db col key = None -> o_cuid (op_id o1) = u -> oseq' o1 = 1%N ->
+  Forall (polite col D key) es ->
+  let '(db', resp, pubs) := handle_pack db colname col u (mkPpp key D bit_create (mkCp 0 1) ty [o1] None) in
+  p_err resp = None /\
+  let st := orun colname col D key ty (mkLs (mkPs db' [mkPc u 1 1 [] []]) []) es in
+  let dbc := clean (dbof st) in
+  LogInv dbc /\
+  (forall c, In c (ps_cl (l_base st)) ->
+     pc_exec c = foreign (pc_cuid c) (firstn (N.to_nat (pc_s c)) (logops D dbc))) /\
+  (forall d w, In d (s_dts dbc) -> seqs_of (s_ops dbc) (dd_duid d) w = nseq 1 (N.to_nat (ack d w))) /\
+  (forall d0, In d0 (s_dts dbc) -> dd_duid d0 = D -> forall c, In c (ps_cl (l_base st)) -> pc_s c = dd_end d0 ->
+     pc_exec c = foreign (pc_cuid c) (logops D dbc)).
+Proof. exact datatype_life_among_others. Qed.
+Print Assumptions C05_datatype_life_among_others.
